@@ -1,5 +1,6 @@
 import JsonPathVerif.Theorem
 import JsonPathVerif.C11
+import JsonPathVerif.Checked
 /-! # C08 – parsing and evaluation never panic, abort or hang (what a total functional model can carry)
 
 * every `Impl` function is a total Lean function; the two `while` loops of `process_slice` are the well-founded
@@ -47,5 +48,23 @@ theorem slice_iterations_bounded (a b c : Option Int) (len : Nat) : (sliceIndice
       refine Nat.le_trans (loopNeg_length _ _ _ h) ?_
       omega
     · simp
+
+/-- no arithmetic overflow in slice selection: with every `i64` operation of `process_slice` checked (`idx.abs()`, `len + i`,
+`len - 1`, `-len - 1`, `idx += step`), all bounds and the step in the I-JSON range the parser admits (extremes ±(2^53-1)
+included) and any array length up to 2^62, no operation overflows and the result is the unchecked model's -/
+theorem slice_no_overflow (a b c : Option Int) (len : Int) (ha : Checked.inJO a) (hb : Checked.inJO b) (hc : Checked.inJO c)
+    (h0 : 0 ≤ len) (hlen : len ≤ 4611686018427387904) : Checked.cSlice a b c len = some (sliceIndices a b c len) :=
+  Checked.cSlice_ok a b c len ha hb hc h0 hlen
+
+/-- no arithmetic overflow in index selection for every index the parser admits -/
+theorem index_no_overflow (idx : Int) (len : Nat) (hi : Checked.inJ idx) (hlen : (len : Int) ≤ 4611686018427387904) :
+    Checked.cIndex idx len = some ((implIndex idx len).map fun (n : Nat) => (n : Int)) := Checked.cIndex_ok idx len hi hlen
+
+/-- the range check is necessary: at `i64::MIN` `idx.abs()` overflows (defect D10, repaired in the parser) -/
+theorem index_overflow_at_i64_min (len : Int) : Checked.cIndex Checked.I64_MIN len = none := Checked.cIndex_min_panics len
+
+/-- non-vacuity: the extreme slice `[2^53-1 : -(2^53-1) : -(2^53-1)]` satisfies the hypotheses -/
+example : Checked.inJO (some 9007199254740991) ∧ Checked.inJO (some (-9007199254740991)) ∧ Checked.inJO none := by
+  simp [Checked.inJO, Checked.inJ]
 
 end JP.C08
